@@ -32,3 +32,17 @@ Example builder_output_simple_nonvacuous :
   (exists g n, build w_for_def true = Built g n /\ length n = 1) /\
   (exists g n, build w_nested_comp true = Built g n).
 Proof. vm_compute. repeat split; eauto; repeat eexists; repeat constructor. Qed.
+
+(** Tie of the spec-side predicate to the source: [GenCrash.crash_visitors] is regenerated from
+    checker/expr_checker.py on every run (the ExprSynthesizer visitors that unconditionally raise
+    InternalGuppyError; the translator separately insists on the chained-comparison guard of
+    visit_Compare and on generic_visit staying a user error).  [Ast.simple] was written for
+    exactly this set: a new crashing visitor breaks this proof. *)
+From V.C02 Require GenCrash.
+From Coq Require Import String.
+Example crash_set_is_the_one_simple_describes :
+  GenCrash.crash_visitors = ["BoolOp"; "IfExp"; "ListComp"; "NamedExpr"]%string /\
+  simple (EBool BoAnd (v 0) (v 1)) = false /\ simple (EIf (v 0) (v 1) (v 2)) = false /\
+  simple (EComp KList (v 0) (GCons (v 0) (v 1) ENil GNil)) = false /\ simple (EWalrus 0 (v 1)) = false /\
+  simple (ECmp (v 0) (CMore CLt (v 1) (CLast CLt (v 2)))) = false.
+Proof. repeat split; reflexivity. Qed.
